@@ -28,7 +28,10 @@
 (***************************************************************************)
 EXTENDS SwaySem, FiniteSets
 
-CONSTANT F12Fixed      \* TRUE: const_eval.rs uses checked_rem for u256 (the repaired tree)
+CONSTANTS BSel,          \* indices (1..10) of the boundary operands to use
+          ChainSel,      \* operator pairs ("add-sub", ...) of the arithmetic chains to use
+          F12Fixed,      \* TRUE: const_eval.rs uses checked_rem for u256 (the repaired tree)
+          B256CmpFixed    \* TRUE: const_eval.rs compares b256 constants in Gt / Lt (the repaired tree)
 
 (***************************************************************************)
 (* Expressions                                                             *)
@@ -48,11 +51,14 @@ PowTwo(k, w) == Shl(One(w), k)
 \* 0x5AA5..: a value with no special structure, below 2^(w-1)
 Mid(t) == LET w == WidthOf(t) IN [i \in 1..w |-> IF (w - i) % 2 = 0 THEN 90 ELSE 165]
 
-Boundary(t) ==
+BoundarySeq(t) ==
     LET w == WidthOf(t) bits == 8 * w IN
-    { Zero(w), One(w), FromNat(2, w), MaxOf(t), Sub(MaxOf(t), One(w)).v,
-      PowTwo(bits \div 2, w), PowTwo(bits - 1, w),
-      Add(PowTwo(bits - 1, w), One(w)).v, Sub(PowTwo(bits - 1, w), One(w)).v, Mid(t) }
+    << Zero(w), One(w), FromNat(2, w), MaxOf(t), Sub(MaxOf(t), One(w)).v,
+       PowTwo(bits \div 2, w), PowTwo(bits - 1, w),
+       Add(PowTwo(bits - 1, w), One(w)).v, Sub(PowTwo(bits - 1, w), One(w)).v, Mid(t) >>
+\* BSel: which of the ten boundary values this run uses (1..10 = all; the quick tier takes five,
+\* rotated by the seed so that every ordered pair is met by some seed)
+Boundary(t) == { BoundarySeq(t)[i] : i \in BSel }
 
 \* shift amounts are u64 values
 ShiftAmountsNat(t) == LET bits == BitsOf(t) IN {0, 1, bits - 1, bits, bits + 1, 63, 64, 255, 256}
@@ -63,7 +69,7 @@ ShiftAmounts(t) ==
 \* operands of the two-operator chains
 ChainOperands(t) == LET w == WidthOf(t) IN { One(w), Sub(MaxOf(t), One(w)).v, PowTwo(8 * w - 1, w) }
 ChainAmounts(t) == { FromNat(n, 8) : n \in {1, BitsOf(t) - 1, BitsOf(t)} }
-ChainOpPairs == { <<"add", "sub">>, <<"sub", "add">>, <<"mul", "div">>, <<"div", "mul">> }
+ChainOpPairs == { p \in { <<"add", "sub">>, <<"sub", "add">>, <<"mul", "div">>, <<"div", "mul">> } : p[1] \o "-" \o p[2] \in ChainSel }
 
 ResultType(op, t) == IF op \in CmpOps THEN "bool" ELSE t
 
@@ -130,6 +136,158 @@ Sem(e) ==
     IF r.sig = "ok" THEN Val(Enc(r.v)) ELSE AbortS
 
 (***************************************************************************)
+(* CE: the front-end constant evaluator, as the code has it.               *)
+(*                                                                         *)
+(* An IR constant of type u8..u64 is ConstantValue::Uint(u64) plus its     *)
+(* type; u256 and b256 are 256-bit BigUints.  Here: the *representation*   *)
+(* of a value of type t is 8 bytes (Uint) or 32 bytes, little-endian.      *)
+(* Evaluation result: V(t, r) | Refuse | Panic.                            *)
+(***************************************************************************)
+RepW(t) == IF t \in {"u256", "b256"} THEN 32 ELSE 8
+V(t, r) == [k |-> "val", t |-> t, r |-> r]
+IsWide(t) == t \in {"u256", "b256"}
+MaxRep(t) == Resize(MaxOf(t), RepW(t))
+
+\* --- const_eval_intrinsic (sway-core/src/ir_generation/const_eval.rs) ---
+\* Add | Sub | Mul | Div | Mod.  Uint: "All arithmetic is done as if it were u64" with checked_*;
+\* U256: checked_* of sway-types/src/u256.rs, except Mod which called BigUint `rem` (panics on a
+\* zero divisor) before the repair F12.
+CEArith(op, t, a, b) ==
+    IF t = "u256" THEN
+        IF op = "mod" /\ IsZero(b) /\ ~F12Fixed THEN Panic
+        ELSE LET x == Arith(op, "u256", a, b) IN IF x.ok THEN V(t, x.v) ELSE Refuse
+    ELSE LET x == Arith(op, "u64", a, b) IN IF x.ok THEN V(t, x.v) ELSE Refuse
+
+\* And | Or | Xor: Uint, U256, B256
+CEBitw(op, t, a, b) == V(t, Bitw(op, t, a, b).v)
+
+\* Lsh | Rsh.  Uint: u32::try_from(amount) then u64::checked_shl / checked_shr (None when the amount
+\* is >= 64; bits shifted out of the 64 are dropped silently).  U256 / B256: `shr` of the BigUint;
+\* checked_shl = BigUint shl, refused when the result needs more than 256 bits.
+CEShift(op, t, a, n) ==
+    IF IsWide(t) THEN
+        IF op = "shr" THEN V(t, IF IsSmall(n) THEN Shr(a, ToNat(n)) ELSE Zero(32))
+        ELSE IF IsZero(a) THEN V(t, a)
+        ELSE IF ~IsSmall(n) \/ ToNat(n) >= 256 THEN Refuse
+        ELSE IF Shr(Shl(a, ToNat(n)), ToNat(n)) = a THEN V(t, Shl(a, ToNat(n))) ELSE Refuse
+    ELSE IF ~IsSmall(n) \/ ToNat(n) >= 64 THEN Refuse
+         ELSE V(t, IF op = "shl" THEN Shl(a, ToNat(n)) ELSE Shr(a, ToNat(n)))
+
+\* Not: `!(*n as u8) as u64` etc.; U256 / B256: all 256 bits
+CENot(t, a) == IF IsWide(t) THEN V(t, BNot(a)) ELSE V(t, Resize(BNot(Resize(a, WidthOf(t))), 8))
+
+\* Eq: equality of the two constants.  Gt | Lt: Uint and U256 only -- a B256 operand reaches
+\* `unreachable!("Type checker allowed non integer value ...")` unless B256CmpFixed.
+CEBool(x) == V("bool", <<IF x THEN 1 ELSE 0>>)
+CECmp(op, t, a, b) ==
+    IF op = "eq" THEN CEBool(a = b)
+    ELSE IF t = "b256" /\ ~B256CmpFixed THEN Panic
+    ELSE CEBool(IF op = "lt" THEN Lt(a, b) ELSE Lt(b, a))
+
+\* --- std's operator implementations, which the evaluator interprets (sway-lib-std/src/ops.sw) ---
+\*   u64, u256 (b256)    the intrinsic itself
+\*   u16, u32  + - *     __add(__transmute::<Self, u64>(a), ...); if __gt(res, MAX) { if
+\*                       panic_on_overflow_enabled() [an asm block: not evaluable] ...} else transmute back
+\*   u8        + - *     operands converted by asm blocks (u8_as_u64): never evaluable
+\*   narrow    <<        __and(__lsh(a, n), Self::max());   !  is __and(__not(a), Self::max())
+\*   / % >> & | ^  == < > on every width: the intrinsic on the Uint representation
+\*   !=  is  eq().not();   <=  is  lt() || eq();   >=  is  gt() || eq()
+StdBin(op, t, a, b) ==
+    IF op \in {"add", "sub", "mul"} THEN
+        IF t = "u8" THEN Refuse
+        ELSE IF t \in {"u16", "u32"} THEN
+            LET x == CEArith(op, "u64", a, b) IN
+            IF x.k # "val" THEN x
+            ELSE IF Lt(MaxRep(t), x.r) THEN Refuse ELSE V(t, x.r)
+        ELSE CEArith(op, t, a, b)
+    ELSE IF op \in {"div", "mod"} THEN CEArith(op, t, a, b)
+    ELSE IF op \in BitOps THEN CEBitw(op, t, a, b)
+    ELSE IF op = "shr" THEN CEShift(op, t, a, b)
+    ELSE IF op = "shl" THEN
+        LET x == CEShift(op, t, a, b) IN
+        IF x.k # "val" \/ IsWide(t) \/ t = "u64" THEN x ELSE CEBitw("and", t, x.r, MaxRep(t))
+    ELSE IF op \in {"eq", "lt", "gt"} THEN CECmp(op, t, a, b)
+    ELSE IF op = "ne" THEN LET x == CECmp("eq", t, a, b) IN CEBool(x.r = <<0>>)
+    ELSE \* le / ge : lazy `||`
+        LET x == CECmp(IF op = "le" THEN "lt" ELSE "gt", t, a, b) IN
+        IF x.k # "val" THEN x ELSE IF x.r = <<1>> THEN x ELSE CECmp("eq", t, a, b)
+
+StdNot(t, a) ==
+    LET x == CENot(t, a) IN IF IsWide(t) \/ t = "u64" THEN x ELSE CEBitw("and", t, x.r, MaxRep(t))
+
+\* --- the evaluator on a case expression.  Arguments are evaluated left to right; the first one
+\* that is not a constant decides.  std's conversions (as_uN: asm blocks or __transmute to u256,
+\* which Transmute does not support; try_from: the same, then Option::unwrap) are never evaluable.
+RECURSIVE CEv(_)
+CEv(e) ==
+    CASE e.k = "lit" -> V(e.t, Resize(FromBE(e.b), RepW(e.t)))
+      [] e.k = "un" -> LET x == CEv(e.e) IN IF x.k # "val" THEN x ELSE StdNot(x.t, x.r)
+      [] e.k = "bin" ->
+            LET x == CEv(e.l) IN
+            IF x.k # "val" THEN x
+            ELSE LET y == CEv(e.r) IN IF y.k # "val" THEN y ELSE StdBin(e.op, x.t, x.r, y.r)
+      [] e.k = "cast" \/ e.k = "trycast" -> LET x == CEv(e.e) IN IF x.k # "val" THEN x ELSE Refuse
+
+\* the observable: what `log(C)` emits (big-endian, the width of the type)
+CEObs(x) ==
+    IF x.k # "val" THEN [k |-> x.k, v |-> <<>>]
+    ELSE IF x.t = "bool" THEN Val(x.r)
+    ELSE Val(ToBE(Resize(x.r, WidthOf(x.t))))
+CE(e) == CEObs(CEv(e))
+
+(***************************************************************************)
+(* Fold: the IR constant-folding rules (sway-ir/src/optimize/constants.rs  *)
+(* combine_binary_op / combine_unary_op / combine_cmp) on ONE instruction  *)
+(* whose operands are constants, and VM: what the FuelVM instruction the   *)
+(* IR operation is lowered to computes for the same operands (u8..u64 are  *)
+(* 64-bit words at this level; the range checks of the narrow types are    *)
+(* separate instructions emitted by std).                                  *)
+(***************************************************************************)
+NotFolded == [k |-> "nofold", v |-> <<>>]
+WordT(t) == IF t = "u256" \/ t = "b256" THEN "u256" ELSE "u64"
+
+FoldBin(op, t, a, b) ==
+    IF t = "b256" THEN NotFolded                                   \* no B256 arm in combine_binary_op
+    ELSE IF op \in ArithOps THEN
+        LET x == Arith(op, WordT(t), a, b) IN IF x.ok THEN V(t, x.v) ELSE NotFolded      \* checked_*
+    ELSE IF op \in BitOps THEN V(t, Bitw(op, t, a, b).v)
+    ELSE IF t = "u256" THEN
+        IF op = "shr" THEN V(t, IF IsSmall(b) THEN Shr(a, ToNat(b)) ELSE Zero(32))
+        ELSE IF IsZero(a) THEN V(t, a)
+        ELSE IF ~IsSmall(b) \/ ToNat(b) >= 256 THEN NotFolded
+        ELSE IF Shr(Shl(a, ToNat(b)), ToNat(b)) = a THEN V(t, Shl(a, ToNat(b))) ELSE NotFolded
+    ELSE IF ~IsSmall(b) \/ ToNat(b) >= 64 THEN NotFolded            \* u32::try_from, checked_shl / checked_shr
+         ELSE V(t, IF op = "shl" THEN Shl(a, ToNat(b)) ELSE Shr(a, ToNat(b)))
+
+FoldNot(t, a) ==
+    IF t = "b256" THEN NotFolded
+    ELSE IF t = "u256" THEN V(t, BNot(a))
+    ELSE V(t, Resize(BNot(Resize(a, WidthOf(t))), 8))                \* (!v) & max of the width
+
+FoldCmp(op, t, a, b) ==          \* Predicate::Equal | LessThan | GreaterThan; Uint, U256, B256
+    CEBool(IF op = "eq" THEN a = b ELSE IF op = "lt" THEN Lt(a, b) ELSE Lt(b, a))
+
+\* the machine: [ok |-> FALSE] = the instruction panics (the transaction reverts)
+VMBin(op, t, a, b) ==
+    IF op \in ArithOps THEN Arith(op, WordT(t), a, b)
+    ELSE IF op \in BitOps THEN Bitw(op, t, a, b)
+    ELSE Shift(op, WordT(t), a, b)
+VMNot(t, a) == IF IsWide(t) THEN Ok(BNot(a)) ELSE Ok(Resize(BNot(Resize(a, WidthOf(t))), 8))
+
+\* the instruction a single-operator case is built around (operands in their representation)
+IsSingleOp(e) == (e.k = "bin" /\ e.l.k = "lit" /\ e.r.k = "lit" /\ e.op \in ArithOps \cup BitOps \cup ShiftOps \cup {"eq", "lt", "gt"})
+                 \/ (e.k = "un" /\ e.e.k = "lit")
+RepOf(lit) == Resize(FromBE(lit.b), RepW(lit.t))
+FoldOf(e) ==
+    IF e.k = "un" THEN FoldNot(e.e.t, RepOf(e.e))
+    ELSE IF e.op \in CmpOps THEN FoldCmp(e.op, e.l.t, RepOf(e.l), RepOf(e.r))
+    ELSE FoldBin(e.op, e.l.t, RepOf(e.l), RepOf(e.r))
+VMOf(e) ==
+    IF e.k = "un" THEN VMNot(e.e.t, RepOf(e.e))
+    ELSE IF e.op \in CmpOps THEN Ok(FoldCmp(e.op, e.l.t, RepOf(e.l), RepOf(e.r)).r)      \* comparisons: Bytes order itself
+    ELSE VMBin(e.op, e.l.t, RepOf(e.l), RepOf(e.r))
+
+(***************************************************************************)
 (* The model: one case is drawn, evaluated at run time, then by the        *)
 (* compiler's two evaluators.                                              *)
 (***************************************************************************)
@@ -138,17 +296,42 @@ CONSTANTS ClsSel, TySel        \* which classes / operand types this run enumera
 Pool == UNION { CasesOf(cls, t) : cls \in ClsSel \cap Classes, t \in TySel \cap IntTypes }
           \cup (IF "b256" \in ClsSel THEN B256Cases \cup ReinterpretCases ELSE {})
 
-VARIABLES c, phase, sem
-vars == <<c, phase, sem>>
+VARIABLES c, phase, sem, ce, fold
+vars == <<c, phase, sem, ce, fold>>
 
 None == [k |-> "none", v |-> <<>>]
 
-Init == c \in Pool /\ phase = "new" /\ sem = None
+Init == c \in Pool /\ phase = "new" /\ sem = None /\ ce = None /\ fold = None
 
-RunTime == phase = "new" /\ sem' = Sem(c.e) /\ phase' = "done" /\ UNCHANGED c
+\* the program runs: nothing is known at compile time
+RunTime == phase = "new" /\ sem' = Sem(c.e) /\ phase' = "ran" /\ UNCHANGED <<c, ce, fold>>
+\* the front end evaluates the expression as the initializer of a const / configurable
+CompileTime == phase = "ran" /\ ce' = CEv(c.e) /\ phase' = "evaluated" /\ UNCHANGED <<c, sem, fold>>
+\* the optimizer meets the instruction with constant operands
+FoldIR ==
+    /\ phase = "evaluated"
+    /\ fold' = IF IsSingleOp(c.e) THEN [k |-> "inst", f |-> FoldOf(c.e), m |-> VMOf(c.e)] ELSE None
+    /\ phase' = "done" /\ UNCHANGED <<c, sem, ce>>
 
-Next == RunTime
+Next == RunTime \/ CompileTime \/ FoldIR
 Spec == Init /\ [][Next]_vars
 
 Done == phase = "done"
+
+(***************************************************************************)
+(* The property, on the model.                                             *)
+(***************************************************************************)
+\* a value computed at compile time is the value computed at run time
+Agreement == Done /\ ce.k = "val" => sem = CEObs(ce)
+\* when run time aborts the compiler does not put a value in its place: it reports an error
+NoSubstitution == Done /\ sem.k = "abort" => ce.k = "refuse"
+\* the compiler does not crash
+NoPanic == Done => ce.k # "panic"
+\* the constant the compiler builds is a value of its type
+InRange == Done /\ ce.k = "val" /\ ce.t # "bool" => Fits(ce.r, WidthOf(ce.t))
+\* IR constant folding replaces an instruction only by what the machine would have computed,
+\* and never an instruction that would have panicked
+FoldSound == Done /\ fold.k = "inst" /\ fold.f.k = "val" => (fold.m.ok /\ fold.m.v = fold.f.r)
+\* (s = Sem(e), x = CE(e)): Sem's value, or a compile error where Sem aborts or the evaluator refuses
+AllowedCompileTime(s, x) == IF s.k = "abort" THEN {Refuse} ELSE {s} \cup (IF x.k = "refuse" THEN {Refuse} ELSE {})
 =============================================================================
